@@ -20,6 +20,17 @@ CLAIMED = {
          "tetrahedron at omega == vertex value) is reported as KNOWN-FINDING. Not decided here: smearing DOS quadrature accuracy, projected-DOS eigenvector normalisation.",
     technique="deductive verification: symbolic-execution VC generation over clang/ast + z3/cvc5/sympy",
     design="DESIGN.md section 5 C11"),
+ "C10": dict(
+    text="get_free_energy/get_entropy/get_heat_capacity (c/phonopy.c) and mode_F/mode_S/mode_cv/mode_ZPE/mode_zero (thermal_properties.py) are symbolically "
+         "executed from the current source; obligations: compiled == Python (modulo the documented zero-point term), both == the documented closed forms, "
+         "S = -dF/dT and C_V = T dS/dT by mechanical differentiation of the extracted terms, C_V >= 0, the reduction of C_V <= k_B to sinh(y) >= y, the KB constant "
+         "against units.Kb, finiteness of every result in an IEEE special-value model (exp/sinh/cosh overflow, inf*0, inf/inf), and the mesh kernel "
+         "phpy_get_thermal_properties against the weighted double sum over q-points and bands above the cutoff (six nested loops with quantified invariants, "
+         "frame, bounds), for all array sizes and contents.",
+    note=TRUST + "Rounding error is ignored (the special-value model covers overflow/underflow and NaN generation only). AX-SINH / AX-TANH and the T->0, T->infinity "
+         "limits are cited, not decided. Finding E5 (NaN at low temperature) was repaired in /repo (fix: commit) and is checked unrestricted.",
+    technique="deductive verification: symbolic-execution VC generation with loop invariants + z3/sympy; special-value model for finiteness",
+    design="DESIGN.md section 5 C10"),
 }
 
 NA = {
